@@ -124,6 +124,38 @@ class Adapter:
                     div('fresh_process_failed', {'hashseed': hs, 'mode': mode, 'stderr': p.stderr[-400:]})
                     break
                 runs.append(((hs, mode, os.path.basename(lf).split('.')[-1] + '+' + os.path.basename(mf).split('.')[-1]), p.stdout))
+        # the command-line entry point: `python -m maltoolbox attack-graph generate <model> <lang>` leaves the graph in the
+        # configured attack-graph file (relative to the working directory): same content once more
+        if not res['div']:
+            import shutil
+            cdir = os.path.join(d, 'cli-%d' % os.getpid())
+            shutil.rmtree(cdir, ignore_errors=True)
+            os.makedirs(cdir)
+            env = dict(os.environ, PYTHONHASHSEED=str(self.hashseeds[-1]),
+                       PYTHONPATH=os.environ.get('VERIF_REPO', '/repo') + os.pathsep + os.environ.get('PYTHONPATH', ''))
+            p = subprocess.run([sys.executable, '-m', 'maltoolbox', 'attack-graph', 'generate', mj, mar], cwd=cdir, env=env,
+                               stdout=subprocess.PIPE, stderr=subprocess.STDOUT, text=True, timeout=100)
+            res['steps'] += 1
+            import glob
+            outs = glob.glob(os.path.join(cdir, '**', 'attackgraph.*'), recursive=True)
+            if p.returncode != 0 or not outs:
+                div('cli_generate_fails', {'rc': p.returncode, 'output': p.stdout[-300:]})
+            else:
+                if outs[0].endswith('.json'):
+                    loaded = json.load(open(outs[0], encoding='utf-8'))
+                else:
+                    import yaml
+                    loaded = yaml.safe_load(open(outs[0], encoding='utf-8'))
+                # the configured file may be YAML (keys sorted by the writer): content equality
+                a = json.loads(json.dumps(loaded, sort_keys=True, default=str))
+                b = json.loads(json.dumps(json.loads(s1), sort_keys=True))
+                if a != b:
+                    from harness.replay_syntax import first_diff
+                    fd = first_diff(b, a)
+                    div('cli_generate_differs', {'file': os.path.basename(outs[0]), 'at': fd[0] if fd else None,
+                                                 'api': json.dumps(fd[1], default=str)[:200] if fd else None,
+                                                 'cli': json.dumps(fd[2], default=str)[:200] if fd else None})
+            shutil.rmtree(cdir, ignore_errors=True)
         for f in (mar, mj, my, mal):
             if f and os.path.exists(f):
                 os.unlink(f)
